@@ -106,8 +106,12 @@ def gen_case(rng, tier):
         bad = rng.choice(['start<0', 'factor<1', 'stop=0', 'stop<start', 'count<0', 'jitter>1', 'jitter<-1'])
         if bad == 'start<0':
             case['start'] = -abs(start) - 0.5
+            if rng.random() < 0.3:
+                case['stop'] = case['start']
         elif bad == 'factor<1':
             case['factor'] = rng.choice([0.5, 0.999, 0.0, -2.0])
+            if rng.random() < 0.3:
+                case['stop'] = case['start'] = max(start, 0.5)      # a constant backoff is still validated
         elif bad == 'stop=0':
             case['stop'] = 0.0
             case['start'] = 0.0
@@ -115,6 +119,8 @@ def gen_case(rng, tier):
             case['start'] = stop + 1.0
         elif bad == 'count<0':
             case['count'] = -rng.randint(1, 3)
+            if rng.random() < 0.3:
+                case['stop'] = case['start'] = max(start, 0.5)
         elif bad == 'jitter>1':
             case['jitter'] = rng.choice([1.0000001, 2.0, 5])
         else:
@@ -127,7 +133,7 @@ def gen_case(rng, tier):
             lo, hi = hi, lo
         if hi <= 0:
             hi = 1.0
-        case.update(start=lo, stop=hi, factor=rng.choice([2.0, 10.0, 1e10, 1e100, 1e308, 16.0]),
+        case.update(start=lo, stop=hi, factor=rng.choice([2.0, 10.0, 1e10, 1e100, 1e308, 16.0, 1.2, 1.1]),
                     count=rng.choice([None, None, None, 1, 5, 40]),
                     jitter=rng.choice([False, False, 0.5, 1.0]) if hi < 1e300 else False)
     if case['count'] == 'repeat':
@@ -187,6 +193,19 @@ def _steps_to_stop(start, stop, factor, cap=100000):
     return n
 
 
+def _stationary(start, stop, factor, cap=5000):
+    """Does the float sequence get stuck below stop (cur*factor == cur)?"""
+    cur = float(start)
+    for _ in range(cap):
+        if cur >= stop:
+            return False
+        nxt = min(1.0, stop) if cur == 0 else cur * factor
+        if nxt == cur:
+            return True
+        cur = nxt
+    return False
+
+
 def _close(a, b):
     return a == b or abs(a - b) <= 1e-12 * max(abs(a), abs(b))
 
@@ -207,6 +226,24 @@ def run_case(case):
     if valid:
         to_stop = _steps_to_stop(s, t, f, cap=5000)
         if to_stop >= 5000:
+            if c is None and _stationary(s, t, f):
+                # growth is not representable (start*factor rounds back to start): no float sequence can reach
+                # stop, so nothing is demanded of the values -- but the default count must still be finite
+                bound = 20 * (2 + int((math.log(t) - math.log(s)) / math.log(f))) + 1000 if s else 1000
+                n = 0
+                try:
+                    for _v in it.backoff_iter(s, t, **kw):
+                        n += 1
+                        if n > bound:
+                            out.fail('default-count-never-ends', n, 'backoff_iter(%r, %r, factor=%r) with the default count is still '
+                                     'yielding after %d values (start*factor == start in floating point)' % (s, t, f, n),
+                                     clause='default-count')
+                            break
+                except Exception as e:
+                    out.fail('unexpected-exception', 0, 'valid parameters start=%r stop=%r factor=%r count=None raised %r'
+                             % (s, t, f, e), clause='valid')
+                out.probe('growth_not_representable')
+                out.steps = n
             out.probe('skipped_sequence_too_long')
             out.digest = log.digest()
             return out
@@ -259,6 +296,20 @@ def run_case(case):
             out.fail('invalid-parameters-accepted', 0,
                      'start=%r stop=%r factor=%r count=%r jitter=%r: expected ValueError before anything is yielded, got %s after %d values'
                      % (s, t, f, c, j, type(exc).__name__ if exc else 'no exception', len(vals)), clause='ValueError')
+        elif case['api'] == 'backoff' and c != 'repeat':
+            # the list form is its own entry point: it must refuse the same parameters
+            try:
+                it.random = SimRandom(case['script'], None)
+                got = it.backoff(s, t, **kw)
+                out.fail('invalid-parameters-accepted', 0, 'backoff(%r, %r, count=%r, factor=%r, jitter=%r) returned %r, expected ValueError'
+                         % (s, t, c, f, j, list(got)[:8]), clause='ValueError', api='backoff')
+            except ValueError:
+                pass
+            except Exception as e:
+                out.fail('invalid-parameters-accepted', 0, 'backoff(%r, %r, count=%r, factor=%r, jitter=%r) raised %r, expected ValueError'
+                         % (s, t, c, f, j, e), clause='ValueError', api='backoff')
+            finally:
+                it.random = rnd
         out.digest = log.digest()
         return out
     if overrun:
